@@ -75,4 +75,9 @@ CONFIG = {
         "thorough": {'checks': 500000, 'shards': 14, 'timeout': 3600, 'shrinktime': '60s'},
         "assumptions": ["'=' on names that exist only as a global or built-in is excluded (statement silent)", "argument expressions of a yield never read one of the block's parameter names", "range in '=' form never uses '_' as a target"],
     },
+    'C08': {
+        "quick": {'checks': 8000, 'shards': 4, 'timeout': 900},
+        "thorough": {'checks': 300000, 'shards': 14, 'timeout': 3600, 'shrinktime': '60s'},
+        "assumptions": ["every block that uses 'yield content' has default content and is always yielded with content (what a contentless invocation renders inside another pending content is not specified)", 'all definitions of one block name share parameter names and give every parameter a default', 'one definition per block name and file'],
+    },
 }
